@@ -2,6 +2,8 @@ package props
 
 import (
 	"fmt"
+	"sort"
+	"strings"
 
 	"verif/ev"
 	"verif/mc"
@@ -112,6 +114,31 @@ func longDocs(n int, positions []int, kinds []string) []playCase {
 	return r
 }
 
+// longPairs lists documents of length n with two deviations, of every ordered pair of kinds,
+// at each of the given position pairs.
+func longPairs(n int, pairs [][2]int) []playCase {
+	var r []playCase
+	for _, k1 := range longKinds[1:] {
+		for _, k2 := range longKinds[1:] {
+			for _, pp := range pairs {
+				c := playCase{Path: "lib"}
+				for i := 0; i < n; i++ {
+					in := longBase(i)
+					if i == pp[0] {
+						in = longDeviate(in, k1)
+					}
+					if i == pp[1] {
+						in = longDeviate(in, k2)
+					}
+					c.Insts = append(c.Insts, in)
+				}
+				r = append(r, c)
+			}
+		}
+	}
+	return r
+}
+
 func longDescribe(n int, positions []int, kinds []string) string {
 	ps := "every position"
 	if positions != nil {
@@ -155,6 +182,59 @@ func runLong(e *Env, cliEvery int, eval func(c *playCase)) {
 		if cliEvery > 0 {
 			cli = fmt.Sprintf("in-process, every %d-th also through the real binary", cliEvery)
 		}
+		_ = s
 		e.R.AddPart(ev.Part{Name: fmt.Sprintf("long-documents-%d", s.n), Enumerated: longDescribe(s.n, s.pos, s.kinds) + "; " + cli, Executions: int64(len(docs)), Transitions: int64(len(docs) * s.n), Exhaustive: true})
 	}
+	// two deviations far apart (and next to each other): every ordered pair of kinds
+	pairs := [][2]int{{40, 90}, {63, 64}, {3, 128}}
+	if e.Thorough {
+		pairs = append(pairs, [2]int{0, 129}, [2]int{100, 101}, [2]int{7, 8}, [2]int{64, 127})
+	}
+	docs := longPairs(130, pairs)
+	mc.ParFor(len(docs), func(i int) {
+		c := docs[i]
+		eval(&c)
+		e.R.Trace(1)
+		e.R.Transition(130)
+		if cliEvery > 0 && i%(4*cliEvery) == 0 {
+			cc := docs[i]
+			cc.Path = "cli"
+			eval(&cc)
+		}
+	})
+	e.R.NonTrivialN(int64(len(docs)))
+	e.R.AddPart(ev.Part{Name: "long-documents-two-deviations", Enumerated: fmt.Sprintf("periodic documents of 130 instances with two deviations: every ordered pair of the %d kinds at position pairs %v", len(longKinds)-1, pairs), Executions: int64(len(docs)), Transitions: int64(len(docs) * 130), Exhaustive: true})
+}
+
+// wideChords writes a user dictionary with chords Wide<n> (display w<n>) of n tones of pairwise
+// different size (so that no key is struck twice) and returns the file and the sizes available.
+func wideChords(e *Env, m *refplay.Model) (file string, max int) {
+	type at struct {
+		name string
+		size int
+	}
+	var ats []at
+	seen := map[int]bool{}
+	var names []string
+	for n := range m.Dict.Attrs {
+		names = append(names, n)
+	}
+	sort.Strings(names)
+	for _, n := range names {
+		sz := m.Dict.Attrs[n].MustSize()
+		if sz < 0 || sz > 45 || seen[sz] {
+			continue
+		}
+		seen[sz] = true
+		ats = append(ats, at{n, sz})
+	}
+	sort.Slice(ats, func(i, j int) bool { return ats[i].size < ats[j].size })
+	var b strings.Builder
+	for n := 1; n <= len(ats); n++ {
+		fmt.Fprintf(&b, "- name: Wide%d\n  meta:\n    display: w%d\n  attributes:\n", n, n)
+		for _, a := range ats[:n] {
+			fmt.Fprintf(&b, "    - %s\n", a.name)
+		}
+	}
+	return writeTemp(e.Scratch, "wide-chords.yml", b.String()), len(ats)
 }
